@@ -55,7 +55,9 @@ func (H) Expand(plan *core.Plan, first *core.Result) []*core.Plan {
 	for k := 1 + plan.C("offset", 0)%step; k <= n; k += step {
 		p := plan.Clone()
 		p.Cfg["crash_at"] = k
-		p.Tape = nil
+		if plan.C("par", 0) == 0 {
+			p.Tape = nil
+		} // else: the same schedule up to the crash
 		out = append(out, p)
 	}
 	return out
@@ -87,6 +89,14 @@ func genC01(rng *rand.Rand, tier string) *core.Plan {
 		}
 	}
 	fams := 1 + rng.Intn(2)
+	par := rng.Intn(3) == 0
+	if par {
+		// flushers of several families run at the same time: the schedule matters
+		fams = 3 + rng.Intn(2)
+		p.Cfg["par"] = 1
+		p.Cfg["preempt_pm"] = []int{5, 30, 100}[rng.Intn(3)]
+		p.Cfg["switch_pm"] = 300
+	}
 	n := 3 + rng.Intn(8)
 	for f := 0; f < fams; f++ {
 		p.Ops = append(p.Ops, core.Op{K: "family", T: f})
@@ -95,6 +105,9 @@ func genC01(rng *rand.Rand, tier string) *core.Plan {
 	for i := 0; i < n; i++ {
 		f := rng.Intn(fams)
 		switch r := rng.Intn(100); {
+		case r < 25 && par:
+			p.Ops = append(p.Ops, core.Op{K: "pflush", T: f, A: int64(1 + rng.Intn(4)), B: int64(rng.Intn(4) | rng.Intn(2)<<3),
+				C: []int64{0, 7, 100, 900}[rng.Intn(4)], S: fmt.Sprint(rng.Intn(1 << 30))})
 		case r < 55:
 			nk := 1 + rng.Intn(6)
 			flags := int64(0)
@@ -147,11 +160,11 @@ type c01 struct {
 	mgr      kv.StoreManager
 	store    kv.Store
 	target   kv.Store
-	fams     map[int]bool       // families created (committed)
-	model    map[int]*famModel  // committed content
-	pending  map[int]*famModel  // content if the operation in flight took effect (nil = none in flight)
-	pendFam  int                // family being created by the op in flight (-1 none)
-	tgtUpper content            // upper bound for the rollup target family content
+	fams     map[int]bool      // families created (committed)
+	model    map[int]*famModel // committed content
+	pending  map[int]*famModel // content if the operation in flight took effect (nil = none in flight)
+	pendFam  int               // family being created by the op in flight (-1 none)
+	tgtUpper content           // upper bound for the rollup target family content
 	fsops    int
 	crashAt  int
 	crashed  bool
@@ -278,33 +291,57 @@ func (h *c01) verify(when string, afterCrash bool) {
 		got[i] = &famModel{data: byIter, seqs: seqs}
 		h.fams[i] = true
 	}
-	match := func(want map[int]*famModel) (bool, string) {
-		for i := range h.fams {
-			w, g := want[i], got[i]
-			if w == nil {
-				w = &famModel{data: content{}, seqs: map[int32]int64{}}
-			}
-			if g == nil {
-				return false, fmt.Sprintf("family %s missing", famName(i))
-			}
-			if !w.data.equal(g.data) {
-				return false, fmt.Sprintf("family %s holds {%s}, expected {%s}", famName(i), g.data, w.data)
-			}
-			if len(w.seqs) != len(g.seqs) {
+	matchOne := func(i int, w, g *famModel) (bool, string) {
+		if w == nil {
+			w = &famModel{data: content{}, seqs: map[int32]int64{}}
+		}
+		if g == nil {
+			return false, fmt.Sprintf("family %s missing", famName(i))
+		}
+		if !w.data.equal(g.data) {
+			return false, fmt.Sprintf("family %s holds {%s}, expected {%s}", famName(i), g.data, w.data)
+		}
+		if len(w.seqs) != len(g.seqs) {
+			return false, fmt.Sprintf("family %s sequences %v, expected %v", famName(i), g.seqs, w.seqs)
+		}
+		for l, s := range w.seqs {
+			if g.seqs[l] != s {
 				return false, fmt.Sprintf("family %s sequences %v, expected %v", famName(i), g.seqs, w.seqs)
 			}
-			for l, s := range w.seqs {
-				if g.seqs[l] != s {
-					return false, fmt.Sprintf("family %s sequences %v, expected %v", famName(i), g.seqs, w.seqs)
-				}
+		}
+		return true, ""
+	}
+	match := func(want map[int]*famModel) (bool, string) {
+		for i := 0; i < 4; i++ {
+			if !h.fams[i] {
+				continue
+			}
+			if ok, why := matchOne(i, want[i], got[i]); !ok {
+				return false, why
 			}
 		}
 		return true, ""
 	}
 	okOld, why := match(h.model)
 	if !okOld && afterCrash && h.pending != nil {
-		if okNew, _ := match(h.pending); okNew {
-			h.model = h.pending
+		// every family on its own shows the state before or after the operation that was in flight on it
+		// (parallel flushes: any subset of them may have committed)
+		mixed := map[int]*famModel{}
+		for i := range h.fams {
+			pick := h.model[i]
+			if g := got[i]; g != nil {
+				if ok1, _ := matchOne(i, h.model[i], g); !ok1 {
+					if ok2, _ := matchOne(i, h.pending[i], g); ok2 {
+						pick = h.pending[i]
+					}
+				}
+			}
+			if pick != nil {
+				mixed[i] = pick
+			}
+		}
+		if okNew, _ := match(mixed); okNew {
+			h.model = mixed
 			c.Sim.Probe("inflight-op-survived")
 			okOld = true
 		}
@@ -443,69 +480,48 @@ func (h *c01) runOp(op core.Op) {
 		if !h.fams[fam] {
 			return
 		}
-		f := h.store.GetFamily(famName(fam))
-		rng := rand.New(rand.NewSource(int64(len(op.S))*7919 + atoiSafe(op.S)))
-		keys := append([]uint32(nil), keyUniverse...)
-		rng.Shuffle(len(keys), func(i, j int) { keys[i], keys[j] = keys[j], keys[i] })
-		nk := int(op.A)
-		if nk > len(keys) {
-			nk = len(keys)
-		}
-		keys = keys[:nk]
-		sort.Slice(keys, func(i, j int) bool { return keys[i] < keys[j] })
 		pm := h.cloneModel()
-		if pm[fam] == nil {
-			pm[fam] = &famModel{data: content{}, seqs: map[int32]int64{}}
-		}
-		fl := f.NewFlusher()
-		seqOnly := op.B&4 != 0
-		var err error
-		if !seqOnly {
-			for i, k := range keys {
-				h.nextTok++
-				id := h.nextTok
-				pad := int(op.C)
-				val := encodeValue(map[uint64]int{id: pad})
-				pm[fam].data.add(k, id, pad)
-				h.tgtUpper.add(k, id, pad)
-				if op.B&1 != 0 && i%2 == 1 {
-					var sw table.StreamWriter
-					if sw, err = fl.StreamWriter(); err == nil {
-						sw.Prepare(k)
-						half := len(val) / 2
-						_, _ = sw.Write(val[:half])
-						_, _ = sw.Write(val[half:])
-						err = sw.Commit()
-					}
-				} else {
-					err = fl.Add(k, val)
-				}
-				if err != nil {
-					break
-				}
-			}
-		}
-		if err != nil {
-			fl.Release()
-			c.Anomaly("flush add: %v", err)
-			return
-		}
-		if op.B&2 != 0 || seqOnly {
-			leader := int32(1 + op.A%2)
-			seq := int64(h.nextTok) + 100
-			fl.Sequence(leader, seq)
-			pm[fam].seqs[leader] = seq
-		}
 		h.pending = pm
-		err = fl.Commit()
-		fl.Release()
-		if err != nil {
-			c.Violate("C01/commit-failed", "flush commit returned %v without any injected fault", err)
+		if !h.doFlush(fam, op, pm) {
 			return
 		}
 		h.model = pm
 		h.pending = nil
 		h.verify("after flush", false)
+	case "pflush":
+		// 2-3 flushers on different families of one store at the same time (under the seeded schedule): they share
+		// the store's file number allocator, manifest and version set
+		var fams []int
+		for i := 0; i < 4 && len(fams) < 2+int(op.B>>3&1); i++ {
+			if f := (fam + i) % 4; h.fams[f] {
+				fams = append(fams, f)
+			}
+		}
+		if len(fams) < 2 {
+			return
+		}
+		pm := h.cloneModel()
+		h.pending = pm
+		running, failed := len(fams), false
+		sim.Fault("parallel-flush")
+		for j, f := range fams {
+			sub := op
+			sub.T, sub.S, sub.B = f, op.S+fmt.Sprint(j), op.B&3
+			f := f
+			sim.SpawnIn(h.inc, fmt.Sprintf("flusher%d", j), func() {
+				if !h.doFlush(f, sub, pm) {
+					failed = true
+				}
+				running--
+			})
+		}
+		sim.Await(func() bool { return running == 0 || h.crashed })
+		if h.crashed || failed || c.Violated() {
+			return
+		}
+		h.model = pm
+		h.pending = nil
+		h.verify("after parallel flushes", false)
 	case "compact":
 		if !h.fams[fam] {
 			return
@@ -545,6 +561,70 @@ func (h *c01) runOp(op core.Op) {
 		h.pending = nil
 		h.verify("after close+reopen", false)
 	}
+}
+
+// doFlush writes one generated flush into the family and commits it; pm receives its effect.
+func (h *c01) doFlush(fam int, op core.Op, pm map[int]*famModel) bool {
+	c := h.c
+	f := h.store.GetFamily(famName(fam))
+	rng := rand.New(rand.NewSource(int64(len(op.S))*7919 + atoiSafe(op.S)))
+	keys := append([]uint32(nil), keyUniverse...)
+	rng.Shuffle(len(keys), func(i, j int) { keys[i], keys[j] = keys[j], keys[i] })
+	nk := int(op.A)
+	if nk > len(keys) {
+		nk = len(keys)
+	}
+	keys = keys[:nk]
+	sort.Slice(keys, func(i, j int) bool { return keys[i] < keys[j] })
+	if pm[fam] == nil {
+		pm[fam] = &famModel{data: content{}, seqs: map[int32]int64{}}
+	}
+	fl := f.NewFlusher()
+	seqOnly := op.B&4 != 0
+	var err error
+	if !seqOnly {
+		for i, k := range keys {
+			h.nextTok++
+			id := h.nextTok
+			pad := int(op.C)
+			val := encodeValue(map[uint64]int{id: pad})
+			pm[fam].data.add(k, id, pad)
+			h.tgtUpper.add(k, id, pad)
+			if op.B&1 != 0 && i%2 == 1 {
+				var sw table.StreamWriter
+				if sw, err = fl.StreamWriter(); err == nil {
+					sw.Prepare(k)
+					half := len(val) / 2
+					_, _ = sw.Write(val[:half])
+					_, _ = sw.Write(val[half:])
+					err = sw.Commit()
+				}
+			} else {
+				err = fl.Add(k, val)
+			}
+			if err != nil {
+				break
+			}
+		}
+	}
+	if err != nil {
+		fl.Release()
+		c.Anomaly("flush add: %v", err)
+		return false
+	}
+	if op.B&2 != 0 || seqOnly {
+		leader := int32(1 + op.A%2)
+		seq := int64(h.nextTok) + 100
+		fl.Sequence(leader, seq)
+		pm[fam].seqs[leader] = seq
+	}
+	err = fl.Commit()
+	fl.Release()
+	if err != nil {
+		c.Violate("C01/commit-failed", "flush commit returned %v without any injected fault", err)
+		return false
+	}
+	return true
 }
 
 func (h *c01) awaitIdle() {
